@@ -189,7 +189,9 @@ func c18Modules(data []byte, end int) []c18Module {
 	return out
 }
 
-var c18Modes = []string{"roundtrip+seek", "leak", "keys", "tamper-bytes", "tamper-swap", "tamper-truncate+transplant"}
+var c18Modes = []string{"roundtrip+seek", "leak", "keys", "tamper-bytes", "tamper-swap", "tamper-truncate+transplant",
+	// a column chunk with more than 256 pages: modules whose ordinals differ by 256 are exchanged
+	"tamper-swap-256"}
 
 func c18Run(x *engine.X) {
 	cfgs := c18Configs()
@@ -205,6 +207,13 @@ func c18Run(x *engine.X) {
 	}
 	if strings.HasPrefix(mode, "tamper") && x.Tier != "thorough" {
 		nrows = 9
+	}
+	if mode == "tamper-swap-256" {
+		if cfg.bloom || cfg.aadPrefix {
+			return // two of the three option variants are enough for the long files
+		}
+		nrows = 300
+		cfg.opts = append(append([]parquet.WriterOption{}, cfg.opts...), parquet.PageBufferSize(1))
 	}
 	rows := c18Rows(nrows, "A")
 	var exp []string
@@ -373,6 +382,33 @@ func c18Run(x *engine.X) {
 						return
 					}
 				}
+			}
+		case "tamper-swap-256":
+			// one page per row: 2 modules (header, data) per page, so module m and m+512
+			// of a column chunk are the same kind of module 256 page ordinals apart
+			swapped := 0
+			for _, dist := range []int{512, 510, 514, 256} {
+				for a := 0; a+dist < len(mods); a++ {
+					b := a + dist
+					if mods[a].total != mods[b].total || bytes.Equal(data[mods[a].off:mods[a].off+mods[a].total], data[mods[b].off:mods[b].off+mods[b].total]) {
+						continue
+					}
+					if dist != 512 && a%7 != 0 {
+						continue // the control distances are sampled
+					}
+					t := append([]byte(nil), data...)
+					copy(t[mods[a].off:], data[mods[b].off:mods[b].off+mods[b].total])
+					copy(t[mods[b].off:], data[mods[a].off:mods[a].off+mods[a].total])
+					swapped++
+					if !mustFail(fmt.Sprintf("modules %d and %d (%d apart, both %d bytes) exchanged", a, b, dist, mods[a].total), t) {
+						return
+					}
+				}
+			}
+			x.CountN("far-swaps", int64(swapped))
+			if swapped < 200 {
+				x.Failf("harness", "far-swaps", "only %d exchanges of equal-size modules 512 apart were possible (%d modules)", swapped, len(mods))
+				return
 			}
 		case "tamper-truncate+transplant":
 			// transplant from a twin file with another file identifier (same keys, same shape)
